@@ -69,7 +69,7 @@ fn normalise(turn_to: u8, river_to: u8) -> (u8, u8) {
 pub fn run(tier: &str) -> i32 {
     let mut rep = Report::new("C16", tier);
     let thorough = tier == "thorough";
-    let max_n: u32 = if thorough { 131_072 } else { 16_384 };
+    let max_n: u32 = if thorough { 131_072 } else { 40_000 };
     // (1) direct enumeration of the real function + conformance of the transcription
     let chunk = 256u32;
     let nchunks = (max_n + chunk - 1) / chunk;
